@@ -88,35 +88,15 @@ func runC05(c *Ctx) {
 	r.Anchor("R2", "stHandlers table", g != nil && len(a.StTable) > 0)
 	r.Floor("R2", "state-handler table entries", len(a.StTable), 13)
 	if g != nil {
-		uses := 0
-		for _, fn := range c.ModFuncs {
-			if fn.Package() != c.Client || fn.Name() == "init" {
-				continue
-			}
-			funcInstrs(fn, func(in ssa.Instruction) {
-				u, ok := in.(*ssa.UnOp)
-				if !ok || u.Op != token.MUL || u.X != g {
-					return
-				}
-				uses++
-				for _, ref := range *u.Referrers() {
-					switch t := ref.(type) {
-					case *ssa.DebugRef:
-					case *ssa.Range:
-						okFlow, why := c.rangeValuesOnlyTo(t, handle)
-						r.Add("R2", "table-use:"+c.FuncKey(fn), c.InstrPos(t), c.FuncKey(fn), "values ranged from the state-handler table flow only into the internal registration wrapper", okFlow, why)
-					case *ssa.Call:
-						if b, ok := t.Call.Value.(*ssa.Builtin); ok && b.Name() == "len" {
-							continue
-						}
-						r.Add("R2", "table-use:"+c.FuncKey(fn)+":call", c.InstrPos(t), c.FuncKey(fn), "state-handler table is only ranged over", false, "passed to a call")
-					default:
-						r.Add("R2", "table-use:"+c.FuncKey(fn)+":other", c.InstrPos(ref), c.FuncKey(fn), "state-handler table is only ranged over", false, fmt.Sprintf("used by %T", ref))
-					}
-				}
-			})
+		ranges, badUses := c.tableUses(g)
+		for i, tr := range ranges {
+			okFlow, why := c.rangeValuesOnlyTo(tr.Range, handle)
+			r.Add("R2", fmt.Sprintf("table-use:%s#%d", c.FuncKey(tr.Fn), i+1), c.InstrPos(tr.Range), c.FuncKey(tr.Fn), "values ranged from the state-handler table flow only into the internal registration wrapper", okFlow, why)
 		}
-		r.Floor("R2", "uses of the state-handler table", uses, 1)
+		for i, b := range badUses {
+			r.Add("R2", fmt.Sprintf("table-use:other#%d", i+1), "-", "", "state-handler table is only ranged over (directly or in a helper it is passed to)", false, b)
+		}
+		r.Floor("R2", "range loops over the state-handler table", len(ranges), 1)
 	}
 	// state handler functions are not referenced elsewhere
 	for k, fn := range a.StTable {
@@ -394,6 +374,13 @@ func runC16(c *Ctx) {
 	r.Rule("R1", "every invocation of handler code is under a deferred call of Config.Recover, one handler per recovered frame; the default hook calls recover() directly")
 	r.Rule("R2", "each handler of an event runs on its own joined goroutine whose Done is reached after a recovered panic (the recovering frame is a callee of the goroutine, or Done is deferred)")
 	r.Rule("R3", "every dispatch on the background set is a detached go (not joined, not awaited)")
+	r.Rule("R4", "no handler runs, and no dispatcher waits for handlers, while the handler-set lock is held (shared with C04.R3): a handler that never returns would otherwise block every registration and removal on that set, and with them the event loop")
+	r.Rule("R5", "a panic recovered by the hook leaves no library lock behind: wherever a lock of package client or state is released by an explicit Unlock rather than a deferred one, every potentially panicking instruction executed while it is held (in that function and its callees) is proved safe")
+	{
+		funcs := c.clientFuncs()
+		c.noLockAcrossHandlers("R4", funcs, c.ComputeLocksets(funcs), "client.hSet.RWMutex")
+	}
+	c.panicSafeLocksRule("R5")
 	c.handlerFrameRule("R1")
 	// R2
 	n := 0
